@@ -308,6 +308,21 @@ class Obj(object):
         self.ops = dict(v=lambda x: (post(x),),
                         s=lambda x: _s1(post.evaluateS1(x)))
 
+    def _build_filterpost_fixed(self, tag):
+        """filter posterior with a fixed (symbolic) noise scale"""
+        B = self.B
+        from . import c13
+        H = c13.build(B, dict(units=[hier.unit('gaussian'),
+                                     hier.unit('pooled')],
+                              n_samples=2, times=[2.5, 1.0],
+                              sigma_fixed=True))
+        post = H['post']
+        self.obj = post
+        self.n = post.n_parameters()
+        self.user = dict(mech=H['mm'])
+        self.ops = dict(v=lambda x: (post(x),),
+                        s=lambda x: _s1(post.evaluateS1(x)))
+
     def _build_red_em(self, tag):
         B = self.B
         em = chi.ReducedErrorModel(
@@ -587,7 +602,7 @@ def case_shared_models(B, cfg):
 
 KINDS = ['ll_pk', 'll_pk_fixed', 'post_pk', 'll_sym', 'hier', 'filterpost',
          'red_em', 'red_pop', 'filter', 'll_red_em', 'pm', 'ppm', 'prior_pm',
-         'pop_flat']
+         'pop_flat', 'filterpost_fixed']
 
 
 def jobs(tier):
@@ -618,7 +633,7 @@ def jobs(tier):
                     kind=kind, seq=[list(s) for s in seq]), facade))
     # one parameter array re-used (written in place) for all evaluations
     for kind in ('ll_sym', 'll_pk', 'hier', 'post_pk', 'filterpost',
-                 'll_red_em', 'red_pop', 'red_em'):
+                 'll_red_em', 'red_pop', 'red_em', 'filterpost_fixed'):
         facade = FACADE if 'pk' in kind else {'diffcheck': False}
         for seq in itertools.product(single_ops, repeat=2):
             if seq[0][2] == seq[1][2]:
